@@ -411,7 +411,8 @@ def check_many(rep, funcs):
     kparts = {}
     for status, part, line, cons, detail, wit in (_k.obl if _k is not None else []):
         kparts.setdefault(part, []).append((status, line, cons, detail, wit))
-    if kparts.get("empty") and any("cursor[a] starts" in c for st, l, c, d, w in kparts.get("layout", [])):
+    decided = lambda items: bool(items) and all(st != "UNDECIDED" for st, l, c, d, w in items)
+    if decided(kparts.get("empty")) and decided([x for x in kparts.get("layout", []) if "cursor[a] starts" in x[2]]):
         for st, l, c, d, w in kparts["empty"]:
             n += 1
             rep.add("R-C08-h", "%s@%d" % (where, l), c, st, d, True, w)
